@@ -10,7 +10,6 @@ from typing import Mapping
 from typing import Sequence
 from typing import Union
 
-from liquid import Mode
 from liquid.exceptions import LiquidSyntaxError
 from liquid.exceptions import LiquidTypeError
 from liquid.expression import Expression
@@ -243,10 +242,12 @@ class LoopExpression(Expression):
                 tokens.eat_one_of(*argument_separators)
                 cols = parse_primitive(env, tokens)
             elif kind == TOKEN_COMMA:
-                if env.mode == Mode.STRICT and tokens.peek.kind == TOKEN_COMMA:
-                    raise LiquidSyntaxError(
-                        f"expected 'reversed', 'offset' or 'limit', found {kind}",
-                        token=tokens.peek,
+                if tokens.peek.kind == TOKEN_COMMA:
+                    env.error(
+                        LiquidSyntaxError(
+                            f"expected 'reversed', 'offset' or 'limit', found {kind}",
+                            token=tokens.peek,
+                        )
                     )
                 continue
             elif kind == TOKEN_EOF:
